@@ -171,6 +171,7 @@ func TestC02(t *testing.T) {
 	p.Name = "deterministic-dataflow"
 	p.Outcomes = []string{"success", "success", "success", "success", "error", "alt", "crash"}
 	p.MaxDelayMs = 25
+	p.PreferProduced = 80
 	runProperty(t, "C02",
 		func(rt *rapid.T) *vcase.Case { return vcase.GenCase(rt, p, "C02") },
 		func(st *Stats, c *vcase.Case) string {
@@ -179,7 +180,7 @@ func TestC02(t *testing.T) {
 				return "generated program rejected by Prepare (generator soundness): " + short(ans.PrepareErr, 400)
 			}
 			if owner, _ := anomaly(ans); owner != "" {
-				st.ForeignAnomaly(owner)
+				st.ForeignAnomaly(owner, c)
 				return ""
 			}
 			full := ans
